@@ -84,6 +84,11 @@ def solver_level(ctx):
     nat, nat_traces = oc.split_aborted(ctx, nat, results)
     if not any(e["ev"] == "field" and e["a"] == 1 for t in nat_traces for e in t["ev"]):
         raise core.MachineryFailure("C10: no natural run has a step whose change is below the closeness tolerance")
+    # the reference operator takes its Voronoi faces from circumcentres: meshes must contain obtuse triangles (smooth=0)
+    ob = [t["info"]["edges_opposite_obtuse_angle"] for t in nat_traces]
+    ctx.cov["edges_opposite_an_obtuse_angle_per_mesh"] = sorted(set(ob))
+    if min(ob) < 10:
+        raise core.MachineryFailure(f"C10: a mesh has only {min(ob)} edges opposite an obtuse angle: Voronoi faces not exercised")
     later = sum(t["info"]["later_iterations_with_new_induced"] for t in nat_traces)
     ctx.cov["euler_steps_in_later_screening_iterations_after_a_changed_induced_potential"] = later
     if later < 20:
